@@ -1,7 +1,7 @@
 -------------------------- MODULE HapErrors_Trace --------------------------
 (* Code -> spec: one record per execution of the real code - the step, the transport, the reply
-   the scripted accessory gave (State / Error values as integers, other fields, trailing
-   RetryDelay) and the outcome class observed (exception class by isinstance, or "ok").  The
+   the scripted accessory gave (State / Error values as integers, other fields, position of a
+   RetryDelay item) and the outcome class observed (exception class by isinstance, or "ok").  The
    record is accepted iff the observed class is one the specification allows for that reply;
    ModelAgrees additionally compares with the class the modelled algorithm ends in. *)
 EXTENDS HapErrors, Json, IOUtils
